@@ -37,7 +37,7 @@ def load_corpus():
     # behaviour-preserving refactorings written by independent sub-agents (benign/<id>/pK.diff): no check may alarm on them
     lim = json.loads((VERIF / "benign" / "known_limitations.json").read_text()) if (VERIF / "benign" / "known_limitations.json").exists() else {}
     allp = [f"C{i:02d}" for i in range(1, 21)]
-    for d in sorted((VERIF / "benign").glob("B*/p*.diff")):
+    for d in sorted((VERIF / "benign").glob("*/p*.diff")):
         key = f"{d.parent.name}/{d.name}"
         if key in lim:
             continue
